@@ -3,6 +3,7 @@ C11 driver: one JSON request per line on stdin, one JSON answer per line on stdo
 
   {"op":"subst","reW":s,"idW":s,"repl":[[src,dest],..],"line":s,"out":s?}
       -> {"model":s,"sim":s,"wordNames":b,"holds":b}        (holds = SubstSpec idW repl line out)
+  {"op":"access","ty":s,"opr":s} -> {"holds":b,"want":s}      (AccessSpec: `->` iff the declared type is a pointer)
   {"op":"build","spec":FSPEC,"func":EXPR,"args":[EXPR..],"obs":{"ok":CV}|{"err":cls}?}
       -> {"ok":CV}|{"err":kind}, "accepts":b, "holds":b
   {"op":"find","table":[[name,HANDLER]..],"expr":EXPR}
@@ -239,13 +240,14 @@ def opBuild (j : Json) : Except String Json := do
       match o.getObjVal? "ok" with
       | .ok cvj =>
         match parseCV cvj with
-        | .ok cv => accepts && decide (cv = spec.toCodeValue (expectedInstance spec f))
+        | .ok cv => accepts && decide (cv = spec.toCodeValue (expectedInstance spec f)) &&
+            (getStrD cvj "declType" (U (declType cv)) == U (declType cv))
         | .error _ => false
       | .error _ => !accepts && (getStrD o "err" "" == "ValueError")
     | .error _ => true
   let out : List (String × Json) :=
     match res with
-    | .ok (.cpp cv _) => [("ok", cvJson cv)]
+    | .ok (.cpp cv _) => [("ok", cvJson cv), ("declType", Json.str (U (declType cv)))]
     | .ok _ => [("err", Json.str "not-cpp")]
     | .error e => [("err", Json.str (errKind e)), ("cls", Json.str (errClass e))]
   pure (Json.mkObj (out ++ [("accepts", Json.bool accepts), ("holds", Json.bool holds)]))
@@ -309,7 +311,11 @@ def handle (line : String) : String :=
   | .ok j =>
     let r : Except String Json := do
       let op ← (← j.getObjVal? "op").getStr?
-      if op == "subst" then opSubst j
+      if op == "access" then
+        let ty := S (← (← j.getObjVal? "ty").getStr?)
+        let o := S (← (← j.getObjVal? "opr").getStr?)
+        pure (Json.mkObj [("holds", Json.bool (decide (AccessSpec ty o))), ("want", Json.str (U (accessOp ty)))])
+      else if op == "subst" then opSubst j
       else if op == "build" then opBuild j
       else if op == "find" then opFind j
       else if op == "query" then opQuery j
